@@ -260,6 +260,25 @@ Section Cryptobox.
     | RPayload a k => ErrPayload a k
     | r => ErrEnc (enc_error_uri r)
     end.
+
+  (* protocol.py _exception_from_message, WHOLE function with a codec: an encryption error is returned AT ONCE
+     (`if enc_err: return enc_err`) — before the registry of exception classes is consulted and without the detail
+     attributes being assigned; otherwise the decrypted args/kwargs replace msg.args/msg.kwargs and the rest of the
+     function (Model/SessionErr.v exception_from_message: registered class or generic fallback) runs on them *)
+  Variable MV : Type.
+  Variable enc_note : string -> V.          (* the log text, single argument of the encryption error *)
+  (* ApplicationError(ENC_..., log_msg, enc_algo=msg.enc_algo) *)
+  Definition enc_exn (u : string) : cexn V MV :=
+    mkCexn CLS_ApplicationError (Some u) [enc_note u] (Some []) true
+           (map (fun n => (n, FromKw None)) RESERVED) [].
+  Definition exception_from_message_codec
+             (construct : cls -> shape -> list V -> kw -> ctor_result V MV) (reg : registry)
+             (codec : option keyring) (rtype req : N) (error : string) (b : body) (meta : string -> option MV)
+    : res (cexn V MV) * bool :=
+    match on_error_codec codec error b with
+    | ErrEnc u => (Ok (enc_exn u), false)
+    | ErrPayload a k => exception_from_message construct reg (mkErr rtype req error a k meta)
+    end.
 End Cryptobox.
 
 Arguments HandlerInvoked {V}. Arguments EventIgnored {V}. Arguments EndpointInvoked {V C}. Arguments ErrorReply {V C}.
